@@ -177,3 +177,19 @@ func ClockRead() {
 		}
 	}
 }
+
+// FireEarliestTimer lets a harness thread play the clock: the earliest armed timer fires now
+// (virtual time jumps to its deadline). It is a scheduling point with unknown effects.
+//
+//go:norace
+func FireEarliestTimer() bool {
+	s := cur
+	if s == nil {
+		return false
+	}
+	Yield("clock.fire")
+	if Exiting() {
+		return false
+	}
+	return s.fireEarliestTimer(true)
+}
